@@ -46,6 +46,14 @@ func runC31(p *Prog, r *Result) {
 	checkStdinFd(p, r, "R31h")
 	r.Rule("R31i", "in Run every path from the execution of the node (and of the exit trap) to `return nil` consults ctx.Err(): a cancelled run cannot report success", 4)
 	checkRunReportsCancel(p, r, "R31i")
+	r.Rule("R31j", "the goroutine of a process substitution opens its end of the FIFO on every path: the Runner's own open of the other end does not watch the context", 1)
+	checkProcSubstAlwaysOpens(p, r, "R31j")
+	r.Rule("R31l", "exitStatus.clear() leaves a fatal status — which is how a cancelled context is recorded — alone", 2)
+	checkClearKeepsFatal(p, r, "R31l")
+	r.Rule("R31m", "a path that comes from the program is opened with O_NONBLOCK or where a cancelled context can abandon the wait: a FIFO with no peer blocks os.OpenFile for good", 2)
+	checkOpensCanBeAbandoned(p, r, "R31m")
+	r.Rule("R31k", "the function that ties the standard input's read deadline to the context does so on every path (regular files aside): R31d relies on it", 1)
+	checkRegistrarAlwaysRegisters(p, r, "R31k")
 
 	runnerT := lookupType(pkg, "Runner")
 	stopFn := lookupFunc(pkg, "Runner.stop")
@@ -611,6 +619,11 @@ func runC31(p *Prog, r *Result) {
 				})()
 		})
 		for _, c := range reads {
+			if fn := calleeOf(info, c); fn != nil && fn.Pkg() != nil && fn.Pkg().Path() == "golang.org/x/term" {
+				// no registration helps: the package reads the descriptor itself, in blocking mode
+				r.Bad("R31d", fb.key+"#reads the terminal: "+exprString(c.Fun), c.Pos(), "reads the terminal through golang.org/x/term, which reads the descriptor directly: no deadline and no context reach that read, so `read -s` on a terminal sits there until a line is typed, whatever happens to the context")
+				continue
+			}
 			blk, idx := fg.BlockOf(c)
 			ok := false
 			for _, rg := range regs {
@@ -897,6 +910,10 @@ func inLoopCond(fs *ast.ForStmt, n ast.Node) bool {
 // isStdinRead: a method call Read on r.stdin, or r.stdin passed as an argument
 // whose parameter type is an io.Reader-like interface.
 func isStdinRead(info *types.Info, c *ast.CallExpr, stdinF *types.Var) bool {
+	// a read through the descriptor: golang.org/x/term reads the terminal itself, with no deadline and no context
+	if fn := calleeOf(info, c); fn != nil && fn.Pkg() != nil && fn.Pkg().Path() == "golang.org/x/term" && strings.HasPrefix(fn.Name(), "Read") {
+		return true
+	}
 	if se, ok := c.Fun.(*ast.SelectorExpr); ok && selectorField(info, se.X) == stdinF {
 		switch se.Sel.Name {
 		case "Read", "ReadAt", "ReadFrom", "WriteTo":
@@ -1238,6 +1255,12 @@ func isParamOfEnclosing(info *types.Info, fb struct {
 }
 
 var c31Controls = []Control{
+	{Name: "clear-forgets-a-fatal-status", Rule: "R31l", WantKey: "clear#store to code only when the status is not fatal", File: "interp/api.go",
+		Mutate: ctlReplaceAnywhere("\tif e.returning || e.exiting || e.fatalExit {\n\t\treturn\n\t}\n\te.code = 0\n", "\tif e.returning || e.exiting {\n\t\treturn\n\t}\n\te.code = 0\n")},
+	{Name: "process-substitution-skips-its-open-when-cancelled", Rule: "R31j", WantKey: "fillExpandConfig#ProcSubst goroutine 1", File: "interp/runner.go",
+		Mutate: ctlReplaceAnywhere("\t\t\t\tswitch ps.Op {\n\t\t\t\tcase syntax.CmdIn:\n\t\t\t\t\tf, err := os.OpenFile(path, os.O_WRONLY, 0)", "\t\t\t\tif r2.stop(ctx) {\n\t\t\t\t\treturn\n\t\t\t\t}\n\t\t\t\tswitch ps.Op {\n\t\t\t\tcase syntax.CmdIn:\n\t\t\t\t\tf, err := os.OpenFile(path, os.O_WRONLY, 0)")},
+	{Name: "stdin-hook-only-for-pipes", Rule: "R31k", WantKey: "unblockStdinOnCancel#ties the read deadline", File: "interp/builtin.go",
+		Mutate: ctlReplaceAnywhere("func (r *Runner) unblockStdinOnCancel(ctx context.Context) (restore func()) {\n", "func (r *Runner) unblockStdinOnCancel(ctx context.Context) (restore func()) {\n\tif fi, err := r.stdin.Stat(); err == nil && fi.Mode()&os.ModeNamedPipe == 0 {\n\t\treturn func() {}\n\t}\n")},
 	{Name: "zero-kill-timeout-never-kills", Rule: "R31c", WantKey: "WaitDelay is positive", File: "interp/handler.go",
 		Mutate: ctlReplaceAnywhere("if killTimeout > 0 && runtime.GOOS != \"windows\" {", "if killTimeout >= 0 && runtime.GOOS != \"windows\" {")},
 	{Name: "exit-trap-runs-after-the-cancellation-check", Rule: "R31i", WantKey: "Run#after trapCallback", File: "interp/api.go",
